@@ -41,7 +41,12 @@ impl Distance for Manhattan {
     }
 
     fn normalized_distance(d: f32, _dimension: usize) -> f32 {
-        d.max(0.0)
+        // `f32::max` ignores NaN: an undefined distance, which is ranked last, would be reported as 0.0
+        if d.is_nan() {
+            d
+        } else {
+            d.max(0.0)
+        }
     }
 
     fn norm_no_header(v: &UnalignedVector<Self::VectorCodec>) -> f32 {
